@@ -61,3 +61,83 @@ def isinstance_classes(test):
             names = [ntext(c)]
         return ntext(x), names
     return None
+
+
+# ----------------------------------------------------------------------------- local aliases
+def single_defs(fn_node):
+    """name -> value expression, for locals bound exactly once by a plain `name = value`
+    (never augmented, never a loop/with target, not a parameter)."""
+    counts, vals = {}, {}
+    params = {a.arg for a in fn_node.args.posonlyargs + fn_node.args.args + fn_node.args.kwonlyargs}
+    for n in walk_no_nested(fn_node):
+        if isinstance(n, ast.Assign):
+            for t in n.targets:
+                for x in ast.walk(t):
+                    if isinstance(x, ast.Name):
+                        counts[x.id] = counts.get(x.id, 0) + 1
+                        if t is x and len(n.targets) == 1:
+                            vals[x.id] = n.value
+        elif isinstance(n, (ast.AugAssign, ast.AnnAssign)):
+            for x in ast.walk(n.target):
+                if isinstance(x, ast.Name):
+                    counts[x.id] = counts.get(x.id, 0) + 2
+        elif isinstance(n, (ast.For, ast.comprehension)):
+            for x in ast.walk(n.target):
+                if isinstance(x, ast.Name):
+                    counts[x.id] = counts.get(x.id, 0) + 2
+        elif isinstance(n, ast.withitem) and n.optional_vars is not None:
+            for x in ast.walk(n.optional_vars):
+                if isinstance(x, ast.Name):
+                    counts[x.id] = counts.get(x.id, 0) + 2
+        elif isinstance(n, ast.NamedExpr):
+            counts[n.target.id] = counts.get(n.target.id, 0) + 2
+    return {k: v for k, v in vals.items() if counts.get(k) == 1 and k not in params}
+
+
+class _Expand(ast.NodeTransformer):
+    def __init__(self, defs, depth):
+        self.defs = defs
+        self.depth = depth
+
+    def visit_Name(self, node):
+        if isinstance(node.ctx, ast.Load) and node.id in self.defs and self.depth > 0:
+            import copy
+            v = copy.deepcopy(self.defs[node.id])
+            return _Expand(self.defs, self.depth - 1).visit(v)
+        return node
+
+
+def expand_locals(fn_node, expr, depth=3, defs=None):
+    """`expr` with every single-definition local replaced by its defining expression (to the
+    given depth).  Purely for recognising what an expression is made of."""
+    import copy
+    defs = single_defs(fn_node) if defs is None else defs
+    return ast.fix_missing_locations(_Expand(defs, depth).visit(copy.deepcopy(expr)))
+
+
+def const_num(e):
+    """numeric value of a literal, folding unary minus / plus (also nested): --1 -> 1"""
+    if isinstance(e, ast.Constant) and isinstance(e.value, (int, float)) and not isinstance(e.value, bool):
+        return e.value
+    if isinstance(e, ast.UnaryOp) and isinstance(e.op, (ast.USub, ast.UAdd)):
+        v = const_num(e.operand)
+        if v is None:
+            return None
+        return -v if isinstance(e.op, ast.USub) else v
+    return None
+
+
+def accum(stmt, ops=(ast.Add,)):
+    """(name, increment expression) when stmt is  name += e  or  name = name + e  (or e + name for
+    the commutative operators given); else None"""
+    if isinstance(stmt, ast.AugAssign) and isinstance(stmt.target, ast.Name) and isinstance(stmt.op, ops):
+        return stmt.target.id, stmt.value
+    if isinstance(stmt, ast.Assign) and len(stmt.targets) == 1 and isinstance(stmt.targets[0], ast.Name) and \
+            isinstance(stmt.value, ast.BinOp) and isinstance(stmt.value.op, ops):
+        t = stmt.targets[0].id
+        v = stmt.value
+        if isinstance(v.left, ast.Name) and v.left.id == t:
+            return t, v.right
+        if isinstance(v.right, ast.Name) and v.right.id == t and isinstance(v.op, (ast.Add, ast.Mult)):
+            return t, v.left
+    return None
